@@ -1,8 +1,13 @@
 import OjgVerif.Reuse.Pool
 import OjgVerif.Reuse.Registry
 import OjgVerif.Props.C07
+import OjgVerif.Gen.SharedState
 /-! # C08 — concurrent use of the package-level APIs (PARTIAL: the ownership protocol only)
 
+The theorems here are about a hand-written ATOMIC-STEP model of the pools and caches
+(`Reuse/Pool.lean`): each step of the transition system is indivisible and writes only the instance
+its goroutine holds, so the model cannot race by construction. Whether the COMPILED code has data
+races is decided by the `-race` stress run and the deterministic oracles of the harness, not here.
 A Lean model cannot exhibit Go data races. What is logic is modelled in `Reuse/Pool.lean`: any
 number of goroutines running `get; reset; work…; finish; [copy]; put; return`, `sync.Pool` as a
 multiset of idle instances that may also drop or create instances at any time, arbitrary
@@ -192,6 +197,78 @@ theorem caches_order_free (c1 c2 : Reuse.Cache) (h1 : c1.wf) (h2 : c2.wf) (t : N
     (Reuse.getTypeStruct C07.cacheSelectsByFlag c1 t om).1 = (Reuse.getTypeStruct C07.cacheSelectsByFlag c2 t om).1 :=
   C07.C07_struct_cache c1 c2 h1 h2 t om
 
+/-! ## The inventory of shared state (generated)
+
+`Gen.SharedState.vars` lists EVERY package-level `var` of oj, gen, sen, jp, alt, asm, pretty and the
+root package with the functions that write it outside `init` (assignment through it, its address
+taken, a method called on it). The table below says what each written variable is; a variable that
+is written at run time and is not in the table — a new one, or a new writer of a listed one —
+breaks `shared_state_classified`. Variables nobody writes after `init` are immutable as far as the
+library goes; the exported ones among them (`DefaultOptions`, `gen.Sort`, `ojg.ErrorWithStack`,
+`ojg.DefaultNumConvMethod` …) are configuration the CALLER may assign: doing so while other
+goroutines run is outside the property. -/
+
+inductive SharedClass where
+  /-- a `sync.Pool`: only `Get`/`Put` are called on it -/
+  | pool
+  /-- a `sync.Mutex`: only `Lock`/`Unlock` -/
+  | mutex
+  /-- written only by the listed functions, all of which run under the named mutex (`caches_locked`) -/
+  | guarded (mutex : String) (writers : List String)
+  /-- its address is handed to functions that only read through it (hand-checked: no assignment
+  through the options pointer in package alt; not a generated fact) -/
+  | readOnlyAddr (fns : List String)
+  /-- a registry written by registration functions, unguarded BY DESIGN: `documented` says whether the
+  doc comment tells the caller to register before sharing. Not among the calls C08 quantifies over. -/
+  | registration (writers : List String) (documented : Bool)
+  deriving DecidableEq, Repr
+
+/-- what every run-time-written package variable is -/
+def sharedTable : List ((String × String) × SharedClass) := [
+  (("oj", "parserPool"), .pool), (("oj", "writerPool"), .pool), (("oj", "marshalPool"), .pool),
+  (("sen", "parserPool"), .pool), (("sen", "writerPool"), .pool),
+  (("oj", "structMut"), .mutex), (("sen", "structMut"), .mutex), (("alt", "structMut"), .mutex),
+  (("oj", "structMap"), .guarded "structMut" ["buildStruct"]), (("oj", "structEmptyMap"), .guarded "structMut" ["buildStruct"]),
+  (("sen", "structMap"), .guarded "structMut" ["buildStruct"]), (("sen", "structEmptyMap"), .guarded "structMut" ["buildStruct"]),
+  (("alt", "structMap"), .guarded "structMut" ["buildStruct"]), (("alt", "structEmptyMap"), .guarded "structMut" ["buildStruct"]),
+  (("alt", "DefaultOptions"), .readOnlyAddr ["Alter", "Decompose", "GenAlter", "Generify"]),
+  -- "Note that this should not be shared across go routines unless all types that will be used are
+  -- registered first" (alt/recomposer.go): Recompose registers unknown types on the fly
+  (("alt", "DefaultRecomposer"), .registration ["Recompose", "MustRecompose"] true),
+  -- jp.RegisterUnaryFunction / RegisterBinaryFunction write the operator table the script parser reads;
+  -- the doc comments do not say "register before use" (observation, reported; not a C08 call)
+  (("jp", "opMap"), .registration ["RegisterUnaryFunction", "RegisterBinaryFunction"] false),
+  -- asm.Define: same, package asm is not in C08's scope
+  (("asm", "fnMap"), .registration ["Define"] false)
+]
+
+def classOK (v : Gen.SharedState.PkgVar) : SharedClass → Bool
+  | .pool => v.shape == "pool" && v.writers.all fun w => w.1 == "call" && (w.2.2 == "Get" || w.2.2 == "Put")
+  | .mutex => v.shape == "mutex" && v.writers.all fun w => w.1 == "call" && (w.2.2 == "Lock" || w.2.2 == "Unlock")
+  | .guarded m ws =>
+    v.writers.all (fun w => w.1 == "assign" && ws.contains w.2.1) &&
+    Gen.SharedState.vars.any (fun u => u.pkg == v.pkg && u.name == m && u.shape == "mutex")
+  | .readOnlyAddr fns => v.writers.all fun w => w.1 == "addr" && fns.contains w.2.1
+  | .registration ws _ => v.writers.all fun w => ws.contains w.2.1
+
+/-- **every package-level variable that is written at run time is accounted for**: a pool, a mutex,
+a cache written only under its mutex, an options value only read through its address, or one of
+the three registries that are unguarded by design (kernel-evaluated over the regenerated
+inventory) -/
+theorem shared_state_classified :
+    (Gen.SharedState.vars.all fun v =>
+      v.writers.isEmpty ||
+      match sharedTable.lookup (v.pkg, v.name) with
+      | some c => classOK v c
+      | none => false) = true := by decide
+
+/-- the eight packages are all there and the inventory is not empty-handed: the pools, caches and
+registries named in the property are found by it -/
+theorem shared_state_present :
+    (["oj", "gen", "sen", "jp", "alt", "asm", "pretty", "ojg"].all (fun p => p == "pretty" || Gen.SharedState.vars.any (·.pkg == p)) &&
+     sharedTable.all fun e => Gen.SharedState.vars.any fun v => (v.pkg, v.name) == e.1 && !v.writers.isEmpty) = true := by
+  decide
+
 /-! ## The recomposer: "a recomposer whose types were registered beforehand"
 
 Registering a struct type registers the struct types its fields hold as well; `Recompose` on a
@@ -234,9 +311,15 @@ theorem C08_registry_closed_repaired (reg : List Nat) (t : Reuse.Reg.TyDecl) :
     Reuse.Reg.lazyWrites (Reuse.Reg.register walkFollows true reg t) t = [] :=
   Reuse.Reg.closed_loop walkFollows walkFollows_all reg t
 
-/-- **The full statement, for the code as it is**: after a struct type has been registered, recomposing
-a value of it performs no registry write — for EVERY struct type, containers of containers
-(`[][]T`, `map[string][]T`, `*[2]T`, `***T` …) included. -/
+/-- **The full statement of the model, for the code as it is**: after a struct type has been registered,
+recomposing a value of it performs no registry write. Quantified over every `TyDecl` of
+`Reuse/Registry.lean`, i.e. any number of fields, each holding a struct type behind ANY path of
+container kinds (any depth, any mix of pointer / slice / map / array: `[][]T`, `map[string][]T`,
+`*[2]T`, `***T` …). It is NOT a statement over Go types: the model has one application of the walk
+(the struct types held by the fields have no struct fields of their own — the recursion of
+`registerComposer` over nested structs is exercised by the harness only, types `RMid`/`RLeaf*`),
+and map KEY types, embedded and unexported fields, interface-typed fields and anonymous struct types
+are outside it. -/
 theorem C08_registry_full (reg : List Nat) (t : Reuse.Reg.TyDecl) :
     Reuse.Reg.lazyWrites (Reuse.Reg.register walkFollows recomposerWalkLoops reg t) t = [] := by
   rw [walk_loops]
